@@ -66,6 +66,10 @@ func (d Dialer) DialURLContext(ctx context.Context, url *transport.URL) (net.Con
 		if err != nil {
 			return nil, fmt.Errorf("invalid dial_timeout value: %w", err)
 		}
+		if dur <= 0 {
+			// A non-positive value would switch the dial timeout off.
+			return nil, fmt.Errorf("invalid dial_timeout value: %s", str)
+		}
 		timeout = dur
 	}
 	if timeout > 0 {
